@@ -62,6 +62,7 @@ package netflow5
 //@   ensures validV5(old(d.reader.base)) ==> len(result.Flows) == be16(old(d.reader.base), 2)
 //@   ensures validV5(old(d.reader.base)) ==> (forall k :: 0 <= k && k < be16(old(d.reader.base), 2) ==> flowAt(result.Flows[k], old(d.reader.base), 24 + 48*k))
 //@   ensures !validV5(old(d.reader.base)) ==> result == nil || len(result.Flows) == 0
+//@   ensures result == nil ==> err != nil
 //@   modifies d.reader.data, d.reader.count
 //@   opt unreachable cover.ret.3   // the default branch of the type switch is dead: nonfatalError is an interface type every error implements
 
@@ -71,3 +72,27 @@ package netflow5
 //@   ensures len(errorSlice) > 0 ==> err != nil
 //@   loop 1
 //@     invariant true
+
+// ---- JSON encoding --------------------------------------------------------------------------------
+
+//@ func (*Message).JSONMarshal
+//@   requires b != nil
+//@   modifies b
+
+//@ func (*Message).encodeAgent
+//@   requires b != nil
+//@   modifies b
+
+//@ func (*Message).encodeHeader
+//@   requires b != nil
+//@   modifies b
+
+//@ func (*Message).encodeFlow
+//@   requires b != nil
+//@   modifies b
+
+//@ func (*Message).encodeFlows
+//@   requires b != nil
+//@   modifies b
+//@   loop 1
+//@     invariant b != nil
